@@ -1,4 +1,5 @@
 import OsacaVerif.Props.C01
+import OsacaVerif.Lemmas.Round2
 /-
   C02 — Optimised schedule never worse than uniform and close to the true optimum.
 
@@ -9,8 +10,12 @@ import OsacaVerif.Props.C01
     hence never the exact optimum `max_S confined S / |S|` (`lowerBound`), by more than its slack ε;
   * `transfer_max_le`: moving load towards a port that stays at or below the donor's old level never
     raises the maximum;  `within_of_bounds`: comparing with `lowerBound` suffices for the 0.15 clause.
+  * `transfer_bottleneck_mono_rounded` / `transfer_bottleneck_vec` / `transfers_bottleneck_mono`: a
+    guarded 0.01 step (guard on the *rounded* sums, as the code evaluates it) never raises the maximum
+    of the rounded sums, for any number of steps, provided the receiving sum is not an exact rounding
+    tie; at a tie it can (concrete counterexample below).
   Decided by exhaustive execution of the real code (harness), not by a theorem: the 0.15 bound on the
-  5 355-kernel family, and "optimised ≤ uniform" on the *rounded* sums (see `..._partial` note below).
+  5 355-kernel family, and "optimised ≤ uniform" on the rounded sums of the real runs (ties included).
 -/
 namespace OsacaVerif.Props.C02
 open OsacaVerif OsacaVerif.Ports OsacaVerif.Spec
@@ -160,5 +165,124 @@ example : ∃ k : List Instr, k ≠ [] ∧ ∀ i ∈ k, Feasible i.ε 2 i.uops i
   ⟨[⟨[⟨1, [0, 1], 1⟩], uniform 2 [⟨1, [0, 1], 1⟩], 0⟩], by simp, by
     intro i hi; simp at hi; subst hi
     exact Spec.uniform_feasible 2 _ (by decide +kernel)⟩
+
+/-! ### the guarded 0.01 transfer on the *rounded* sums (the guard the code evaluates) -/
+
+/-- Python `round(·, 2)` -/
+abbrev r2 (x : Rat) : Rat := roundHalfEven x 2
+
+/-- **`transfer_bottleneck_mono_rounded`** (∀ sums): when the guard `round(sa,2) > round(sb,2)` holds and
+    the receiving sum `sb` is not an exact rounding tie, a transfer of 0.01 from `a` to `b` leaves
+    both touched rounded sums at or below the donor's old rounded sum — the two columns swap or
+    close their gap, the maximum cannot grow. Only the receiver needs the no-tie hypothesis: taking
+    0.01 away never raises a rounded value, ties included. -/
+theorem transfer_bottleneck_mono_rounded (sa sb : Rat) (hb : NoTie sb) (h : r2 sa > r2 sb) :
+    max (r2 (sa - 1/100)) (r2 (sb + 1/100)) ≤ r2 sa := by
+  apply max_le
+  · exact round2_sub_inc_le sa
+  · show roundHalfEven (sb + 1/100) 2 ≤ roundHalfEven sa 2
+    rw [round2_add_inc sb hb]
+    exact round2_lt_step sa sb h
+
+/-- the statement with the no-tie hypothesis on both sums; then the touched columns move by exactly
+    one step: `round(sa − 0.01) = round(sa) − 0.01`, `round(sb + 0.01) = round(sb) + 0.01` -/
+theorem transfer_rounded_exact (sa sb : Rat) (ha : NoTie sa) (hb : NoTie sb) :
+    r2 (sa - 1/100) = r2 sa - 1/100 ∧ r2 (sb + 1/100) = r2 sb + 1/100 :=
+  ⟨round2_sub_inc sa ha, round2_add_inc sb hb⟩
+
+/-- **the no-tie hypothesis is necessary** (finding about the guard, not about the model): with
+    `sb = 0.005` (an exact tie, rounds to the even 0.00) and `sa = 0.012` the guard
+    `round(sa) = 0.01 > 0.00 = round(sb)` holds, yet after the transfer `round(sb + 0.01) =
+    round(0.015) = 0.02 > round(sa)`: the rounded maximum of the two columns grows. -/
+example : r2 (12/1000) > r2 (5/1000) ∧ ¬ NoTie (5/1000) ∧
+    ¬ (max (r2 (12/1000 - 1/100)) (r2 (5/1000 + 1/100)) ≤ r2 (12/1000)) := by decide +kernel
+
+/-- bottleneck of a vector of exact column sums: the maximum of the rounded sums (`foldl max`) -/
+def bottleneck (v : List Rat) : Rat := (v.map r2).foldl max 0
+
+theorem r2_getD_le_bottleneck (v : List Rat) (j : Nat) (hj : j < v.length) :
+    r2 (v.getD j 0) ≤ bottleneck v := by
+  apply (le_foldl_max (v.map r2) 0).2
+  apply List.mem_map.mpr
+  exact ⟨v[j], List.getElem_mem hj, by simp [List.getD_eq_getElem?_getD, hj]⟩
+
+theorem bottleneck_le_of_getD (v : List Rat) (B : Rat) (h0 : 0 ≤ B)
+    (h : ∀ j < v.length, r2 (v.getD j 0) ≤ B) : bottleneck v ≤ B := by
+  apply (foldl_max_le_iff _ _ _).mpr
+  refine ⟨h0, ?_⟩
+  intro x hx
+  obtain ⟨y, hy, rfl⟩ := List.mem_map.mp hx
+  obtain ⟨j, hj, rfl⟩ := List.getElem_of_mem hy
+  have := h j hj
+  simpa [List.getD_eq_getElem?_getD, hj] using this
+
+/-- **lifted to vectors** (∀ port counts, ∀ sums): replacing the entries `a` and `b` of the column
+    sums by `sa − 0.01` and `sb + 0.01` (one guarded balancing step, `Balance.moveRow`) does not
+    increase the bottleneck `max_p round(sum_p, 2)`, provided the receiving sum is not a rounding tie.
+    By induction this holds for any number of such steps (`transfers_bottleneck_mono`). -/
+theorem transfer_bottleneck_vec (v : List Rat) (a b : Nat) (ha : a < v.length) (hb : b < v.length)
+    (hnt : NoTie (v.getD b 0)) (hg : r2 (v.getD a 0) > r2 (v.getD b 0)) :
+    bottleneck (Balance.moveRow v a b (1/100)) ≤ bottleneck v := by
+  have hab : a ≠ b := by rintro rfl; exact lt_irrefl _ hg
+  have hmono := transfer_bottleneck_mono_rounded _ _ hnt hg
+  have hA := r2_getD_le_bottleneck v a ha
+  apply bottleneck_le_of_getD _ _ (le_foldl_max _ 0).1
+  intro j hj
+  have hj' : j < v.length := by simpa [Balance.moveRow] using hj
+  unfold Balance.moveRow
+  rw [getD_addAt _ b j _ (by simpa using hb), getD_addAt v a j _ ha]
+  by_cases h1 : a = j
+  · subst h1
+    have : ¬ b = a := fun e => hab e.symm
+    simp only [if_true, if_neg this, add_zero]
+    have e : v.getD a 0 + -(1/100) = v.getD a 0 - 1/100 := by ring
+    rw [e]
+    exact le_trans (le_trans (le_max_left _ _) hmono) hA
+  · by_cases h2 : b = j
+    · subst h2
+      simp only [if_neg h1, if_true, add_zero]
+      exact le_trans (le_trans (le_max_right _ _) hmono) hA
+    · simp only [if_neg h1, if_neg h2, add_zero]
+      exact r2_getD_le_bottleneck v j hj'
+
+/-- a guarded 0.01 step on the column sums, as a decidable predicate: indices in range, guard on the
+    rounded sums, receiver not an exact tie -/
+def StepOk (v : List Rat) (ab : Nat × Nat) : Prop :=
+  ab.1 < v.length ∧ ab.2 < v.length ∧ NoTie (v.getD ab.2 0) ∧ r2 (v.getD ab.1 0) > r2 (v.getD ab.2 0)
+
+instance (v : List Rat) (ab : Nat × Nat) : Decidable (StepOk v ab) := by
+  unfold StepOk; infer_instance
+
+/-- a sequence of guarded steps, each checked on the vector it is applied to -/
+def StepsOk : List Rat → List (Nat × Nat) → Prop
+  | _, [] => True
+  | v, ab :: rest => StepOk v ab ∧ StepsOk (Balance.moveRow v ab.1 ab.2 (1/100)) rest
+
+instance : (v : List Rat) → (ms : List (Nat × Nat)) → Decidable (StepsOk v ms)
+  | _, [] => isTrue trivial
+  | v, ab :: rest =>
+    have := instDecidableStepsOk (Balance.moveRow v ab.1 ab.2 (1/100)) rest
+    by unfold StepsOk; infer_instance
+
+def applySteps : List Rat → List (Nat × Nat) → List Rat
+  | v, [] => v
+  | v, ab :: rest => applySteps (Balance.moveRow v ab.1 ab.2 (1/100)) rest
+
+/-- **any number of guarded steps** (∀ vectors, ∀ step sequences of any length): the bottleneck of
+    the rounded sums never increases — "optimised ≤ uniform" on the rounded sums, away from ties. -/
+theorem transfers_bottleneck_mono (v : List Rat) (ms : List (Nat × Nat)) (h : StepsOk v ms) :
+    bottleneck (applySteps v ms) ≤ bottleneck v := by
+  induction ms generalizing v with
+  | nil => exact le_rfl
+  | cons ab rest ih =>
+    obtain ⟨⟨h1, h2, h3, h4⟩, hrest⟩ := h
+    exact le_trans (ih _ hrest) (transfer_bottleneck_vec v ab.1 ab.2 h1 h2 h3 h4)
+
+-- non-vacuity: a non-tie transfer, two guarded steps on a 3-port vector
+example : NoTie (1/3) ∧ NoTie (251/1000) ∧ ¬ NoTie (15/1000) := by decide +kernel
+example : StepsOk [1/2, 1/3, 0] [(0, 2), (0, 1)] ∧
+    applySteps [1/2, 1/3, 0] [(0, 2), (0, 1)] = [48/100, 1/3 + 1/100, 1/100] ∧
+    bottleneck [1/2, 1/3, 0] = 1/2 ∧ bottleneck (applySteps [1/2, 1/3, 0] [(0, 2), (0, 1)]) = 48/100 := by
+  decide +kernel
 
 end OsacaVerif.Props.C02
